@@ -30,6 +30,26 @@ func runC03(r *Run) {
 	r.rule("C03.R6", "EndBlock order: the hold-releasing module precedes the delegation module", 1)
 	r.rule("C03.R7", "pending aggregates move with the record (C01 delta obligations of the exit path)", 4)
 	r.rule("C03.R8", "a pending record modified through an iterator helper is always written back; the share-zeroing after a full slash touches only the undelegatable share (pending amounts survive)", 3)
+	r.rule("C03.R9", "an undelegation is never rejected because of the operator's opt-out state: the hold hook that every undelegation runs through does not use an absent opt-out finish epoch as a queue key (C16.R6 obligation)", 1)
+	if r.Prop == "C03" {
+		sub := NewRun(r.W, "C16", r.Tier, r.Seed)
+		runC16(sub)
+		n := 0
+		for _, o := range sub.Obs {
+			if o.Key != "finish-epoch-present" {
+				continue
+			}
+			n++
+			if o.Status == "ok" {
+				r.ok("C03.R9", o.Key, o.Pos, o.Desc)
+			} else {
+				r.bad("C03.R9", o.Key, o.Pos, o.Desc, o.Detail)
+			}
+		}
+		if n == 0 {
+			r.bad("C03.R9", "finish-epoch-present", "-", "C16.R6 obligation present", "the obligation is missing")
+		}
+	}
 	iteratorVisitsAllRule(r, "C03.R8", map[string]bool{"x/delegation/keeper.Keeper.IterateDelegations": true})
 	iteratorWriteBackRule(r, "C03.R8", map[string]bool{"IterateUndelegationsByStakerAndAsset": true, "IterateUndelegationsByOperator": true})
 	shareZeroingRule(r, "C03.R8")
